@@ -460,6 +460,12 @@ void rcu_defer_unregister_thread(void)
 	_rcu_defer_barrier_thread();
 	free(URCU_TLS(defer_queue).q);
 	URCU_TLS(defer_queue).q = NULL;
+	/*
+	 * The queue is empty and off the registry: forget the head
+	 * snapshot taken by rcu_defer_barrier() so that this thread
+	 * can register again.
+	 */
+	URCU_TLS(defer_queue).last_head = 0;
 	is_empty = cds_list_empty(&registry_defer);
 	mutex_unlock(&rcu_defer_mutex);
 
